@@ -125,7 +125,10 @@ PROPS["C01"] = dict(
                "(the crate is compiled with overflow checks and debug assertions), bad shift and division by zero into a proof obligation that the SAT solver must show unreachable for all inputs within the bound.",
     level_note="Bounds per driver are listed in the evidence (buffer sizes 8..256 bytes, all argument values). Outside: larger buffers, 32-bit usize, Debug/Display formatting, ElfStream (C08). Trusted: Kani's panic instrumentation.",
     groups=[
-        K("core", ["c01::"], functions=["file::parse_ident on slices of any length 0..=20"], bounds="ident buffer length 0..=20, all bytes symbolic", timeout_s=300),
+        K("core", ["c01::"], functions=["file::parse_ident on slices of any length 0..=20", "NoteIterator::next with any usize alignment", "GnuHashTable::{new,find} both classes", "SysVHashTable::{new,find}", "ParsingTable::get with any index"],
+          bounds="ident buffer length 0..=20; note area <= 24 bytes, align any usize; GNU table 32/36 bytes (all header words arbitrary), 2 symbols; SysV table 28 bytes; all bytes symbolic", timeout_s=900, jobs=8),
+        K("core", ["c15::get_raw", "c16::", "c09::", "c14::", "c13::"], tier="thorough", functions=["string table, version iterators, hash chain walks, lazy tables, notes, symbol-version queries: same harnesses as C15/C16/C09/C14/C13 (they run under Kani's panic/overflow checks)"],
+          bounds="as in those properties", timeout_s=1800, jobs=8),
     ],
     assumptions=[],
 )
@@ -301,7 +304,7 @@ PROPS["C06"] = dict(
                "The feature-matrix clause has no symbolic variable: each of the 8 subsets of {alloc,std,to_str} must compile, and the --no-default-features rlib must list only core and compiler_builtins as external crates (rustc -Zls).",
     level_note="Bound: 128-byte constant file with symbolic header arguments; header bytes symbolic for open (<=66 bytes); views on <=24 symbolic bytes. Hash-table and symbol-version lookups under the stub are in the thorough tier. The feature matrix is a build obligation, not a solver verdict (stated in DESIGN).",
     groups=[
-        K("alloc", ["z::"], functions=["ElfBytes::minimal_parse and every ElfBytes accessor", "ParsingTable::{get,iter}", "StringTable::{get,get_raw}", "NoteIterator::next"], stubs=_STUBS,
+        K("alloc", ["z::", "zn::"], functions=["ElfBytes::minimal_parse and every ElfBytes accessor", "ParsingTable::{get,iter}", "StringTable::{get,get_raw}", "NoteIterator::next", "section_header_by_name on a 9-section file with non-UTF-8 / duplicate names"], stubs=_STUBS,
           bounds="constant 128-byte file + fully symbolic SectionHeader/ProgramHeader arguments; open on <=66 symbolic bytes; views on <=24 symbolic bytes", timeout_s=1500, extra_kani=["-Z", "stubbing"], jobs=4),
         K("alloc", ["zw::"], functions=["witness: Vec::with_capacity under the same stubs must be caught"], stubs=_STUBS, bounds="n in 1..7", timeout_s=300, extra_kani=["-Z", "stubbing"],
           expect_fail="heap allocation reached"),
